@@ -18,4 +18,4 @@ CONSTRAINT Bounded
 ACTION_CONSTRAINT Emit
 CHECK_DEADLOCK FALSE
 INVARIANTS WellFormedInv
-PROPERTIES C02Prop C03Prop C07Prop C13Prop C08Prop C09Prop C10Prop C11Prop C12Prop C14Prop C17Prop C19Prop
+PROPERTIES C02Prop C03Prop C07Prop C13Prop C08Prop C09Prop C10Prop C11Prop C12Prop C14Prop C17Prop C18Prop C19Prop C06Prop
